@@ -142,6 +142,21 @@ CLAIMED = {
         'technique': 'Lean 4 proof (assignment bijection under a letter swap) + differential correspondence of the string rewriting',
         'design_ref': '§5 C14',
     },
+    'C20': {
+        'text': ('Lean theorems about the executable model of the Stokes dunders and helpers: same-kind arithmetic is '
+                 'component-wise, reflected forms keep the operand order, other kinds and foreign objects are refused, class_for '
+                 'accepts exactly the four kinds, from_stokes / from_iquv select as documented, the dot product of real pytrees is '
+                 'symmetric; on the jnp.result_type table regenerated from the environment in both 64-bit modes, promotion is '
+                 'total, idempotent up to canonicalisation, commutative, associative and an upper bound (kernel-decided over the '
+                 'whole table).  The model is compared with the implementation over kinds × shapes × operations × operand types '
+                 '× forward/reflected, and NumPy component-wise evaluation, structure/shape/dtype of factories and *_like '
+                 'helpers, the Hermitian dot and as_promoted_dtype are checked on the implementation.'),
+        'note': ('Trusted: Lean kernel + standard axioms; A1/A8 (jnp arithmetic, rounding: division and power compared to 1e-5). '
+                 'Many statements are close to the definitions; the assurance is mostly the correspondence. NumPy-array operands '
+                 'are outside the claim (NumPy dispatches first).'),
+        'technique': 'Lean 4 proof + kernel-decided promotion table regenerated from the source environment + differential correspondence',
+        'design_ref': '§5 C20',
+    },
 }
 
 ALL = [f'C{i:02d}' for i in range(1, 21)]
